@@ -56,19 +56,22 @@ func ruleOneAggregation(r *Run, rule string, fn *ssa.Function, dir, kind string)
 	// (1) the sort call and its direction
 	var sortCall *ssa.Call
 	var sortedCell *ssa.Alloc
-	for _, call := range callsIn(fn, func(cc *ssa.CallCommon) bool { return calleeName(cc) == "sort.Slice" }) {
+	var sortedVal ssa.Value
+	for _, call := range callsIn(fn, func(cc *ssa.CallCommon) bool { return isSortCall(cc) }) {
 		sortCall = call.(*ssa.Call)
 		sortedCell = cellOf(sortCall.Call.Args[0])
 	}
-	if sortCall == nil || sortedCell == nil {
+	if sortCall != nil && sortedCell == nil {
+		// slices.SortFunc takes the slice itself (no conversion to any, no closure capturing it): the sorted value is a
+		// plain SSA value; give it a cell-like identity through the variable it is stored in, if any
+		sortedVal = sortCall.Call.Args[0]
+	}
+	if sortCall == nil || (sortedCell == nil && sortedVal == nil) {
 		r.Bad(rule, "agg:"+name+":sorted", site, "the aggregated list is never sorted")
 		return
 	}
-	cmp := closureArg(sortCall.Common(), 1)
-	if cmp == nil {
-		r.Und(rule, "agg:"+name+":order", site, "comparator is not a function literal")
-	} else {
-		d, field, why := comparatorDirection(w, cmp)
+	{
+		d, field, why := sortDirection(w, sortCall.Common())
 		if d == "" {
 			r.Und(rule, "agg:"+name+":order", site, why)
 		} else {
@@ -90,21 +93,44 @@ func ruleOneAggregation(r *Run, rule string, fn *ssa.Function, dir, kind string)
 			r.Check(ok, rule, key, rs, "the input is returned unchanged only when it is empty", "the input list is returned without aggregation although it is not empty (no de-duplication, no ordering)")
 			continue
 		}
-		ok := (cellOf(v) == sortedCell || (len(ret.Results) > 0 && cellOf(ret.Results[0]) == sortedCell)) && domInstr(sortCall, ret)
+		ok := (sortedCell != nil && (cellOf(v) == sortedCell || (len(ret.Results) > 0 && cellOf(ret.Results[0]) == sortedCell)) || sortedCell == nil && v == sortedVal) && domInstr(sortCall, ret)
 		r.Check(ok, rule, key, rs, "returns the aggregated list after sorting it", "returned value is not the sorted aggregated list")
 	}
 	// (3) one output per distinct id: every append to the sorted list happens once per key of a map ranged completely
 	var outAppends []*ssa.Call
-	allInstrs(fn, func(in ssa.Instruction) {
-		if call, ok := isBuiltinCall(in, "append"); ok {
-			for _, ref := range *call.Referrers() {
-				if st, ok := ref.(*ssa.Store); ok && st.Addr == ssa.Value(sortedCell) {
-					outAppends = append(outAppends, call)
+	if sortedCell != nil {
+		allInstrs(fn, func(in ssa.Instruction) {
+			if call, ok := isBuiltinCall(in, "append"); ok {
+				for _, ref := range *call.Referrers() {
+					if st, ok := ref.(*ssa.Store); ok && st.Addr == ssa.Value(sortedCell) {
+						outAppends = append(outAppends, call)
+					}
+				}
+			}
+		})
+	} else {
+		seen := map[ssa.Value]bool{}
+		var walk func(v ssa.Value, depth int)
+		walk = func(v ssa.Value, depth int) {
+			if seen[v] || depth > 6 {
+				return
+			}
+			seen[v] = true
+			switch x := v.(type) {
+			case *ssa.Phi:
+				for _, e := range x.Edges {
+					walk(e, depth+1)
+				}
+			case *ssa.Call:
+				if ac, isAppend := isBuiltinCall(x, "append"); isAppend {
+					outAppends = append(outAppends, ac)
+					walk(ac.Call.Args[0], depth+1)
 				}
 			}
 		}
-	})
-	if len(outAppends) == 0 {
+		walk(sortedVal, 0)
+	}
+	if len(outAppends) == 0 && sortedCell != nil {
 		// the list is built as a plain value (by an inlined collect helper) and stored into the sorted variable once:
 		// the appends of the accumulator that reaches that store
 		for _, ref := range *sortedCell.Referrers() {
@@ -823,7 +849,22 @@ func ruleOneFusion(r *Run, p string, fn *ssa.Function, kind string) {
 						if ks != c.S(rl.next)+"#1" {
 							o = "badkey:" + ks
 						} else {
-							o = e.S(mu.Value)
+							// the value may be chosen earlier and carried in a variable: the operand it received on this path;
+							// storing back the value just looked up under the same key changes nothing
+							rv := resolveOnPath(pr.P, mu.Value)
+							o = e.S(rv)
+							if o == "ref" {
+								var lk *ssa.Lookup
+								switch x := rv.(type) {
+								case *ssa.Extract:
+									lk, _ = x.Tuple.(*ssa.Lookup)
+								case *ssa.Lookup:
+									lk = x
+								}
+								if lk != nil && lk.X == ssa.Value(out) {
+									o = "none"
+								}
+							}
 						}
 					}
 				}
